@@ -232,6 +232,43 @@ func purityRun(args []string) error {
 			}})
 		}
 	}
+	// ONE exchange object served in several versions (b2 and b3 share the payload encoding: a server sets Version and
+	// serializes, again and again): what is written for a version depends on the fields and that version only, not on
+	// which version was written before.  Method HEAD is legal in b1 / b2 and not written at all in b3.
+	for _, first := range version.AllVersions {
+		sp := baseSpec(r, first)
+		sp.method = "HEAD"
+		ex := buildSigned(sp, kc).e
+		first := first
+		sers = append(sers, &pser{name: "DumpExchangeHeaders of one HEAD exchange in every version, starting with " + string(first), seqOnly: true, run: func(io.Writer) []byte {
+			var out bytes.Buffer
+			order := []version.Version{first}
+			for _, v := range version.AllVersions {
+				if v != first {
+					order = append(order, v)
+				}
+			}
+			parts := map[version.Version][]byte{}
+			for _, v := range append(order, order...) {
+				var b bytes.Buffer
+				ex.Version = v
+				if err := ex.DumpExchangeHeaders(&b); err != nil {
+					b.WriteString("error: " + err.Error())
+				}
+				if prev, ok := parts[v]; ok && !bytes.Equal(prev, b.Bytes()) {
+					out.WriteString("<differs within one run: " + string(v) + ">")
+				}
+				parts[v] = b.Bytes()
+			}
+			ex.Version = first
+			for _, v := range version.AllVersions {
+				out.WriteString(string(v) + ":")
+				out.Write(parts[v])
+			}
+			out.WriteString("method:" + ex.RequestMethod)
+			return out.Bytes()
+		}})
+	}
 	// Response.HeaderSha256 (what bundle signing hashes): an ordinary response, and - as an UNRELATED call that fails after
 	// partial progress - a response whose header names collide; the failing call must not disturb the next ordinary one
 	okResp := &bundle.Response{Status: 200, Header: permHeader(r, hkv), Body: []byte("x")}
